@@ -88,6 +88,11 @@ func genC07(t *rapid.T) *c07Case {
 		sc.EOFAfter = rapid.IntRange(0, 2*len(c.Tree.Nodes)+2).Draw(t, "eofafter")
 	}
 	c.Capacity = rapid.SampledFrom([]int{0, 0, 1, 8, 64}).Draw(t, "cap")
+	if rapid.IntRange(0, 3).Draw(t, "serial") == 0 {
+		// a single-threaded sender on a transport that holds (next to) nothing
+		sc.Serial = true
+		c.Capacity = rapid.SampledFrom([]int{0, 0, 1}).Draw(t, "serialcap")
+	}
 	if rapid.IntRange(0, 6).Draw(t, "many") == 0 {
 		c.Many = rapid.SampledFrom([]int{70, 150, 400, 1100}).Draw(t, "nmany")
 	}
@@ -196,6 +201,9 @@ func c07Check(env *h.Env, c *c07Case) error {
 	if !(len(c.Script.Chunk) == 1 && c.Script.Chunk[0] == 32*1024) && len(sr.Sent) > 0 {
 		env.Class("chunking!=32KiB")
 		env.NonTrivial()
+	}
+	if c.Script.Serial {
+		env.Class("single-threaded-sender")
 	}
 	if c.Script.RaceStats {
 		env.Class("stat-data-race")
@@ -454,7 +462,7 @@ func c07UnprivCheck(env *h.Env, c *c07UnprivCase) error {
 		env.NonTrivial()
 	}
 	if res.Stuck {
-		return fmt.Errorf("unprivileged receiver (uid 1000) against a conforming sender never finished")
+		return fmt.Errorf("unprivileged receiver (uid 1000) against a conforming sender never finished; blocked goroutines:\n%s", res.Dump)
 	}
 	if res.RecvErr != "" {
 		return fmt.Errorf("unprivileged receiver (uid 1000) against a conforming sender failed: %s", res.RecvErr)
